@@ -177,6 +177,9 @@ def shard_twin(seed, count):
         cfgname = rng.choice(('v6', 'v7'))
         case = gen.step_case(rng, cfgname, False, e1.enc_arm(wc), e=0, mpu=False, mmu=False, hooked=True)
         case['state']['cpsr'] = (case['state']['cpsr'] & 0x0FFFFFFF) | (nzcv << 28)
+        pc0 = case['state']['R.PC']
+        if any(k.startswith('R.') and k != 'R.PC' and abs(v - pc0) <= 0x60 for k, v in case['state'].items()):
+            continue        # a register points at the instruction itself: a load could read its own (differing) condition field
         case2 = dict(case)
         case2['poke'] = [[case['poke'][0][0], e1.enc_arm(wal).hex()]] + case['poke'][1:]
         cpu, pre, posts, excs = e1.run(case)
